@@ -83,6 +83,26 @@ def cases(seed, tier):
         regs = [(m if r.random() < 0.9 else r.choice(METHODS), r.choice(names) if r.random() < 0.9 else gen_pattern(r)) for _ in range(k)]
         qs = [(m, r.choice(names)) for _ in range(10)] + [(m, rand_path(r)) for _ in range(2)]
         yield regs, qs
+    # pattern-heavy buckets: many overlapping patterns of EQUAL rank under one method (ties are broken by registration order;
+    # any re-ordering of the pattern table only shows with more than 20 entries)
+    segalpha = [b"a", b"b", b":p", b":q", b"*"]
+    allpats = [b"/" + b"/".join(c) for n_ in (2, 3) for c in itertools.product(segalpha, repeat=n_)]
+    allpats += [p_ + b"/**" for p_ in allpats[:40]]
+    for _ in range(25 if tier == "quick" else 1500):
+        m = r.choice(["GET", "POST", "PURGE"])
+        tbl = r.sample(allpats, r.choice([22, 30, 45, 80, 150]))
+        regs = [(m, p_) for p_ in tbl]
+        qs = [(m, b"/" + b"/".join(r.choice([b"a", b"b", b"zz"]) for _ in range(r.choice([2, 3, 3, 4])))) for _ in range(12)]
+        yield regs, qs
+    # long literal paths (64 bytes and more) next to a catch-all, and alone under a custom method
+    for _ in range(6 if tier == "quick" else 200):
+        lens = [8, 31, 32, 33, 62, 63, 64, 65, 66, 100, 127, 128, 129, 200, 255, 256, 300]
+        lits = [b"/" + (b"seg%d-" % L) + b"x" * max(0, L - len(b"seg%d-" % L)) for L in lens]
+        m = r.choice(["GET", "PURGE"])
+        regs = [(m, l_) for l_ in lits] + ([(m, b"/**")] if r.random() < 0.5 else []) + [(m, b"/:p")]
+        r.shuffle(regs)
+        qs = [(m, l_) for l_ in lits] + [(m, lits[3] + b"y")]
+        yield regs, qs
     n = 1500 if tier == "quick" else 60000
     for _ in range(n):
         k = r.choice([0, 1, 2, 3, 5, 8, 13, 40])
